@@ -18,6 +18,7 @@ type WinCfg struct {
 	Unit   int64  `json:"unit"`   // milliseconds per tick
 	Groups int    `json:"groups"` // number of group values; group of row id = id mod Groups
 	Base   int64  `json:"base"`   // offset added to every timestamp, in ticks (multiple of size*slide)
+	Ahead  bool   `json:"ahead"`  // base := now+20h (event time legitimately ahead of the wall clock)
 }
 
 // WinStep is one scenario step.
@@ -151,6 +152,14 @@ func RunWin(sc WinScenario) (evs []Ev, inconclusive string, drift string) {
 }
 
 func runWin(sc WinScenario) (evs []Ev, inconclusive string) {
+	if sc.Cfg.Ahead {
+		period := sc.Cfg.Size
+		if sc.Cfg.Slide > 0 {
+			period *= sc.Cfg.Slide
+		}
+		t := time.Now().Add(20*time.Hour).UnixMilli() / sc.Cfg.Unit
+		sc.Cfg.Base = t / period * period
+	}
 	p := pfx[sc.Cfg.Kind]
 	var gates []string
 	if !sc.Free {
@@ -205,7 +214,7 @@ func runWin(sc WinScenario) (evs []Ev, inconclusive string) {
 			in.Log(Ev{"tr": sc.Tr, "e": "add", "id": st.ID, "ts": st.Ts, "g": g, "v": v, "fut": st.Fut})
 			tsms := (st.Ts + sc.Cfg.Base) * sc.Cfg.Unit
 			if st.Fut == 1 {
-				tsms = time.Now().Add(48 * time.Hour).UnixMilli()
+				tsms = time.Now().Add(40 * time.Hour).UnixMilli() // beyond now+MOO+24h, yet within 24h of an event time running 20h ahead
 			}
 			s.Emit(map[string]any{"id": st.ID, "ts": tsms, "g": g, "v": v})
 			n := nAdd
